@@ -2530,6 +2530,17 @@ func (r *Resolver) findDS(ctx context.Context, signer, qname string, parentDS []
 			}
 
 			parentDS = dnsutil.ExtractRRSet(dsResp.Answer, signer, dns.TypeDS)
+			if !cd && len(parentDS) > 0 && !dsResp.AuthenticatedData {
+				// The DS was fetched with validation on and did not come
+				// back authenticated: some zone between the DS we hold and
+				// this signer is insecure, so whatever it publishes for the
+				// signer is not a link of the chain (RFC 4035 §5.2 wants an
+				// authenticated DS RRset). Using it would let the keys it
+				// names earn AD for data no trust anchor vouches for. Report
+				// "no DS": the caller then decides between insecure and
+				// bogus from the DS set it did authenticate.
+				parentDS = nil
+			}
 		}
 	}
 
